@@ -132,6 +132,7 @@ func c15handler(c *Ctx) {
 		return
 	}
 	slog.AddFlags(slog.LnoInterrupt)
+	gen.ExtremeTimes = true // instants in years outside 0..9999 travel through log/slog as time.Time values
 	c.Each(func(idx int, r *gen.R) {
 		restore := withFlags(0, 0)
 		defer restore()
@@ -140,6 +141,16 @@ func c15handler(c *Ctx) {
 		lgL := slog.New(name)
 		lg := lgL.Root()
 		lg.SetWriter(w).SetErrorWriter(w)
+		if idx%7 == 3 || idx%7 == 5 {
+			// a sick destination IN FRONT of the healthy one, in both classes: it takes half of every payload, either
+			// silently (short count, no error) or with an error. The healthy destination gets its record all the same.
+			sick := mon.New(log, "SICK", mon.ShapePlain)
+			withErr := idx%7 == 5
+			sick.Core().Fail = func(att int, p []byte) (bool, int) { return withErr, len(p) / 2 }
+			lg.SetWriter(sick).SetErrorWriter(sick)
+			lg.AddWriter(w).AddErrorWriter(w)
+			c.R.Add("underlying_loggers_with_a_sick_destination_in_front", 1)
+		}
 		if r.P(15) {
 			// per-level writers that the application added to the underlying logger and removed again
 			for _, lv := range []slog.Level{slog.DebugLevel, slog.InfoLevel, slog.WarnLevel, slog.ErrorLevel} {
@@ -360,7 +371,22 @@ func c15handler(c *Ctx) {
 		log.Reset()
 		m1, m2 := fds.mark()
 		_ = decoy
-		herr := cur.Handle(bg, rec)
+		// the context of the call: the background, one that was cancelled, one whose deadline has passed (a finished
+		// request's context): the record is the same
+		hctx := bg
+		switch idx % 4 {
+		case 1:
+			cctx, cancel := context.WithCancel(bg)
+			cancel()
+			hctx = cctx
+			c.R.Add("records_under_a_context_that_is_done", 1)
+		case 3:
+			dctx, cancel := context.WithDeadline(bg, time.Unix(1, 0))
+			defer cancel()
+			hctx = dctx
+			c.R.Add("records_under_a_context_that_is_done", 1)
+		}
+		herr := cur.Handle(hctx, rec)
 		evs := log.Events()
 		b1, b2 := fds.since(m1, m2)
 		c.R.Add("handle_calls", 1)
@@ -370,7 +396,7 @@ func c15handler(c *Ctx) {
 		}
 		var writes []mon.Event
 		for _, e := range evs {
-			if e.Kind == mon.EvWrite && e.W == "W" {
+			if e.Kind == mon.EvWrite && e.W == "W" && !bytes.Contains(e.Data, []byte(diagText)) { // (a diagnostic about the sick destination is not the record)
 				writes = append(writes, e)
 			}
 		}
@@ -461,8 +487,13 @@ func c15handler(c *Ctx) {
 		// through a log/slog.Logger: emitted iff Enabled
 		sl := stdslog.New(cur)
 		log.Reset()
-		sl.Log(bg, std, "via-logger")
-		n := len(log.Writes("W"))
+		sl.Log(hctx, std, "via-logger")
+		n := 0
+		for _, p := range log.Writes("W") {
+			if !bytes.Contains(p.Data, []byte(diagText)) {
+				n++
+			}
+		}
 		want := 0
 		if lg.Enabled(lvl) {
 			want = 1
